@@ -216,6 +216,13 @@ def control(rng, k, depth, ty, sc):
         sc2 = Scope()
         sc2.vars = sc.vars + [(name, vt)]
         body = gen(rng, depth - 1, ty, sc2)
+        if rng.random() < 0.2:
+            # an inner $let whose vars mention names it rebinds itself: bindings are parallel
+            a, b = rng.choice([('$n', '$m'), ('$n', '$d.x'), (1, 5), ('$s', '$t')])
+            return {k: {'vars': {'x': a, 'y': b},
+                        'in': {'$let': {'vars': {'x': '$$y', 'y': '$$x'},
+                                        'in': rng.choice([['$$x', '$$y'], {'u': '$$x', 'p': '$$y'},
+                                                          {'$eq': ['$$x', a]}])}}}}
         if rng.random() < 0.25:
             inner = {'$map': {'input': rng.choice([[1, 2], '$a']), 'as': name, 'in': '$$' + name}}
             body = rng.choice([[inner, '$$' + name], {'u': inner, 'p': '$$' + name}])
